@@ -74,3 +74,34 @@ def rx_monitor(ctx, cfg):
                        "model": ["ok", c2[0]], "spec": ["ok", c2[-1]], "first_divergence": 1, "monitor_failed": True}
             ctx.problems.insert(0, ("divergence", "a WireValid message makes the implementation panic (rx search)", payload))
             return
+
+
+def conc_race(ctx, cfg):
+    """`wi conc` under the race detector: Subscribe RPCs of several peers at once on one subscribe.Server with the
+    statistics option, while the cache is written to.  Every report is a violation (a concurrent map access is a
+    crash of the whole process that no single message explains)."""
+    import re
+    vrace, out = vcheck.go_build(ctx, "vcorr", race=True)
+    if vrace is None:
+        ctx.problems.append(("build", "-race harness build failed against the working tree:\n" + out[-3000:], None))
+        return
+    rounds = 60 if ctx.tier == "thorough" else 12
+    lines = ["wi new"] + ["wi conc %d %d" % (ctx.seed * 7919 + k, rounds) for k in range(3 if ctx.tier == "thorough" else 2)]
+    env = dict(vcheck.GOENV, GORACE="halt_on_error=0")
+    obs, r = vcheck.run_lines([vrace, "run"], lines, timeout=900, env=env)
+    err = getattr(r, "stderr", "") or ""
+    blocks = re.findall(r"WARNING: DATA RACE.*?={18}", err, re.S)
+    ok = len(obs) == len(lines) and all(o in ("ok", "mon=ok") for o in obs)
+    ctx.obligations.append(("-race: concurrent Subscribe RPCs on one server with statistics (wi conc): monitors ok, no race report",
+                            ok and not blocks, "%d race reports; observations %r" % (len(blocks), obs)))
+    ctx.cov["evaluations"] += len(lines)
+    ctx.cov.setdefault("c12", {})["conc_race"] = {"lines": lines, "observations": obs, "race_reports": len(blocks)}
+    if not ok or blocks:
+        bad = next((i for i, o in enumerate(obs) if o not in ("ok", "mon=ok")), len(obs) if len(obs) < len(lines) else 1)
+        bad = min(bad, len(lines) - 1)
+        payload = {"component": "wi conc (-race)", "ops": lines[:bad + 1], "impl": (obs + ["<no-output>"] * len(lines))[:bad + 1],
+                   "model": (["ok"] + ["mon=ok"] * len(lines))[:bad + 1], "spec": (["ok"] + ["mon=ok"] * len(lines))[:bad + 1],
+                   "first_divergence": bad, "monitor_failed": True, "kind_hint": "failing-schedule",
+                   "race_report": (blocks[0][:4000] if blocks else ""),
+                   "how": "run the -race build of the harness on these lines; the schedule is the Go scheduler's"}
+        ctx.problems.append(("divergence", "wi conc under -race: %s" % (("race detector report: " + blocks[0].split("\n")[1][:200]) if blocks else "monitor failed / process died"), payload))
